@@ -674,6 +674,10 @@ def sym_round(x, k):
     c.add_axiom(z3.And(r - x.z <= half, x.z - r <= half))
     c.add_axiom(z3.Implies(_P_GRID(k)(x.z), r == x.z))
     c.add_axiom(_P_GRID(k)(r))
+    if not c.rnd.get(k):
+        c.add_axiom(f(z3.RealVal(0)) == 0)
+        c.add_axiom(_P_GRID(k)(z3.RealVal(0)))
+        c.rnd[k] = [(z3.RealVal(0), z3.RealVal(0))]
     for (a0, r0) in c.rnd.setdefault(k, []):
         c.add_axiom(z3.Implies(a0 <= x.z, r0 <= r))
         c.add_axiom(z3.Implies(x.z <= a0, r <= r0))
@@ -700,6 +704,7 @@ def sym_exp(x):
     for (t0, e0) in c.trans.get("exp", []):
         c.add_axiom(z3.Implies(t0 < t, e0 < e))
         c.add_axiom(z3.Implies(t < t0, e < e0))
+        c.add_axiom(z3.Implies(t0 + t == 0, e0 * e == 1))
     _register("exp", t, e)
     return SymReal(e)
 
@@ -716,10 +721,12 @@ def sym_log(x):
     c.add_axiom(z3.Implies(u == 1, l == 0))
     c.add_axiom(z3.Implies(u > 1, l > 0))
     c.add_axiom(z3.Implies(u < 1, l < 0))
-    c.add_axiom(l <= u - 1)
+    c.add_axiom(l <= u - 1)            # Mathlib: Real.log_le_sub_one_of_pos
+    c.add_axiom(l * u >= u - 1)        # Mathlib: Real.one_sub_inv_le_log_of_pos  (1 - 1/u <= ln u, u > 0)
     for (u0, l0) in c.trans.get("log", []):
         c.add_axiom(z3.Implies(u0 < u, l0 < l))
         c.add_axiom(z3.Implies(u < u0, l < l0))
+        c.add_axiom(z3.Implies(u0 * u == 1, l0 == -l))
     # ln(1/E) = -t for every known E = exp(t)
     for (t0, e0) in c.trans.get("exp", []):
         c.add_axiom(z3.Implies(u * e0 == 1, l == -t0))
@@ -764,6 +771,14 @@ def sym_pow(a, b):
     c = ctx()
     az, bz = lift_real(a), lift_real(b)
     p = _F_POW(az, bz)
+    if not is_sym(b):
+        fr = Fraction(builtins.float(b)).limit_denominator(64)
+        if abs(builtins.float(fr) - builtins.float(b)) < 1e-15 and fr.numerator in (1, -1) and 2 <= fr.denominator <= 8:
+            # p = a ** (+-1/n):  p ** n == a (resp. 1/a) for a > 0
+            pn = p
+            for _ in range(fr.denominator - 1):
+                pn = pn * p
+            c.add_axiom(z3.Implies(az > 0, z3.And(p > 0, pn == az if fr.numerator == 1 else pn * az == 1)))
     # facts valid for a positive base
     c.add_axiom(z3.Implies(az > 0, p > 0))
     c.add_axiom(z3.Implies(az == 1, p == 1))
